@@ -13,7 +13,8 @@ RULE = (
     "Direct SecurityBase.allocate(amount) calls on a one-security tree: generated price (1e-2..1e5, round and irrational), multiplier, "
     "existing position (flat/long/short), amount of either sign (tiny..huge relative to one unit, exact specials: 0, -value, one-unit cost +-eps), "
     "spread, commission spec in the stated domain (non-decreasing, one-unit cost+half-spread < 0.9 x unit price), integer or fractional mode; "
-    "oracle = independent cost function + bisection for the maximal whole quantity. non-trivial = a trade happened with a non-zero fee or spread; "
+    "oracle = independent cost function + bisection for the maximal whole quantity. allocate_nested: the same with the security under a sub-strategy that has a commission schedule of its own "
+    "(set on it alone, or after a different schedule was pushed from the top): sizing and charging use the schedule of the security's own parent. non-trivial = a trade happened with a non-zero fee or spread; "
     "distinct = distinct spec hashes."
 )
 ASSUMPTIONS = ["cost(0) = 0 (no trade, no fee)", "fractional equality tolerance 2e-8 + 1e-9|amount| (+1e-12 relative on the cost terms)"]
@@ -24,13 +25,35 @@ D0, D1 = pd.Timestamp("2020-01-01"), pd.Timestamp("2020-01-02")
 def setup(bt, spec):
     m = spec["mult"]
     sec = bt.core.Security("x", multiplier=m)
-    s = bt.core.StrategyBase("p", [sec])
-    sec = s["x"]
     p = spec["price"]
     data = pd.DataFrame({"x": [np.nan if p is None else float(p)] * 2}, index=[D0, D1])
     kw = {}
     if spec.get("spread") is not None:
         kw["bidoffer"] = pd.DataFrame({"x": [float(spec["spread"])] * 2}, index=[D0, D1])
+    if spec.get("under"):
+        # the security's parent is a sub-strategy with a commission schedule of its own (set on it directly, or before / after a different
+        # one is pushed from the top of the tree): a trade is sized and charged with the schedule of the security's own parent
+        u = spec["under"]
+        r = bt.core.StrategyBase("r", [bt.core.StrategyBase("p", [sec])])
+        s = r["p"]
+        sec = s["x"]
+        r.setup(data, **kw)
+        r.use_integer_positions(bool(spec["integer"]))
+        fee = interp.Fee(spec.get("fee"))
+        rootfee = interp.Fee(u.get("root_fee"))
+        if u["order"] == "sub_only":
+            s.set_commissions(fee)
+        else:
+            r.set_commissions(rootfee)
+            s.set_commissions(fee)
+        cap = _capital(spec)
+        r.adjust(3.0 * cap)
+        r.update(D0)
+        r.allocate(cap, "p")
+        r.update(D0)
+        return s, sec, fee
+    s = bt.core.StrategyBase("p", [sec])
+    sec = s["x"]
     s.setup(data, **kw)
     s.use_integer_positions(bool(spec["integer"]))
     fee = interp.Fee(spec.get("fee"))
@@ -48,7 +71,7 @@ def _capital(spec):
     a = spec["amount"]
     if isinstance(a, (int, float)):
         est = abs(a)
-    elif a[0] in ("units", "cost"):
+    elif a[0] in ("units", "cost", "decimal_units"):
         est = abs(a[1]) * unit * 2
     else:
         est = 0.0
@@ -152,7 +175,7 @@ def case_allocate(ctx, spec):
         s.update(D0)
     except Exception as e:
         raise Violation("allocate(%r) raised %s: %s [%s]" % (amount, type(e).__name__, str(e)[:120], cls), signature="raises:%s:%s" % (cls, str(e)[:40]))
-    if s.bankrupt:
+    if s.root.bankrupt:
         raise Discard("harness capital too small")
     trades = [t for t in trades if abs(t) >= 1e-16]  # transact ignores quantities below bt's zero tolerance
     q = sum(trades)  # exact executed quantity (position difference loses bits on large positions)
@@ -295,6 +318,16 @@ def alloc_spec(draw):
 
 
 @st.composite
+def nested_alloc_spec(draw):
+    spec = draw(alloc_spec())
+    unit = spec["price"] * spec["mult"]
+    order = draw(st.sampled_from(["sub_only", "root_then_sub"]))
+    root_fee = {"kind": "none"} if order == "sub_only" else draw(st.sampled_from([{"kind": "none"}, {"kind": "prop", "r": 1e-4}, {"kind": "fixed", "f": 0.5 * unit}, {"kind": "unit", "k": 0.3 * unit}]))
+    spec["under"] = {"order": order, "root_fee": root_fee}
+    return spec
+
+
+@st.composite
 def refuse_spec(draw):
     return {
         "price": draw(st.sampled_from([None, 0.0])),
@@ -362,13 +395,14 @@ def fuzz_campaign(ctx, runs):
         st.failures.append({"sub": "allocate", "message": "[coverage-guided campaign] " + f["message"], "signature": f["signature"], "spec": f["spec"]})
 
 
-SUBS = {"allocate": case_allocate, "refuse": case_refuse}
+SUBS = {"allocate": case_allocate, "refuse": case_refuse, "allocate_nested": case_allocate}
 
 
 def shard(ctx):
     run_sub(ctx, "allocate", alloc_spec(), lambda s: case_allocate(ctx, s), ctx.n(40000, 1500000))
     run_sub(ctx, "refuse", refuse_spec(), lambda s: case_refuse(ctx, s), ctx.n(800, 8000))
+    run_sub(ctx, "allocate_nested", nested_alloc_spec(), lambda s: case_allocate(ctx, s), ctx.n(6000, 150000))
     if ctx.tier == "thorough" and ctx.kind == "py" or os.environ.get("VERIF_C05_FUZZ"):
         fuzz_campaign(ctx, int(os.environ.get("VERIF_C05_FUZZ_RUNS", "100000")))
 
-STRATS = {"allocate": alloc_spec, "refuse": refuse_spec}
+STRATS = {"allocate": alloc_spec, "refuse": refuse_spec, "allocate_nested": nested_alloc_spec}
